@@ -34,6 +34,12 @@ CTORS = ["string", "graph", "dicts"]
 # scenario generation (pure harness code)
 # ---------------------------------------------------------------------------
 
+def block_names(block):
+    """Names defined in a fragment block, split the way the format defines it (not by regex:
+    a SMILES such as OC#CC=O contains '#CC=')."""
+    return [part[1:part.find("=")] for part in block[1:-1].split(",")]
+
+
 def _driver_ops(driver, levels):
     if driver == "manual":
         return [{"op": "resolve"} for _ in range(levels)]
@@ -82,9 +88,10 @@ def generate(run_seed, prop, tier="quick"):
             if prop == "C06":
                 size = rng.randint(5, 14) if small else rng.randint(10, 30)
                 item = gen_mol.build_item(rng, size=size, n_leaves=rng.randint(3, 9),
-                                          mid_levels=rng.choice([0, 1, 1, 2, 2, 2, 3, 3]))
+                                          mid_levels=rng.choice([0, 1, 1, 2, 2, 2, 3, 3]), weights=rng.random() < 0.3)
             else:
-                item = gen_mol.build_item(rng, size=rng.randint(3, 12) if small else rng.randint(8, 30))
+                item = gen_mol.build_item(rng, size=rng.randint(3, 12) if small else rng.randint(8, 30),
+                                          weights=rng.random() < 0.4)
         elif roll < 0.86:
             item = gen_mol.build_repeat_item(rng)
         else:
@@ -145,7 +152,7 @@ def generate(run_seed, prop, tier="quick"):
                 all_atom = item["last_all_atom"] and level == levels - 1
                 script = []
                 for g in range(rng.randint(1, 2)):
-                    existing = re.findall(r"#(\w+)=", item["blocks"][level])
+                    existing = block_names(item["blocks"][level])
                     new_name = "G%d%d" % (idx, g)
                     body_new = rng.choice(["[$]CC[$]", "[>]COC[<]", "[$x]C(=O)O", "[$]c1ccccc1"]) if all_atom \
                         else rng.choice(["[$][#X1][#X2][$]", "[>][#Y1]1[#Y2][#Y3]1[<]", "[#Z1][$q]"])
@@ -176,7 +183,7 @@ def generate(run_seed, prop, tier="quick"):
                     add_client("writer", idx, script, lib=lib)
         if faults_enabled["edit"] and rng.random() < 0.4:
             level = rng.randrange(levels)
-            names = re.findall(r"#(\w+)=", item["blocks"][level])
+            names = block_names(item["blocks"][level])
             script = [{"op": "parse_lib", "item": idx, "perm": rng.random() < 0.3}]
             for _ in range(rng.randint(1, 3)):
                 script.append({"op": "edit_lib", "level": level, "name": rng.choice(names),
